@@ -34,6 +34,12 @@ def apply(entry, root):
                            stdout=subprocess.PIPE, stderr=subprocess.STDOUT, text=True)
         if r.returncode != 0:
             return 'patch does not apply: ' + r.stdout[-300:]
+    for path, old, new in entry.get('post_edits', []):
+        p = os.path.join(root, path)
+        s = open(p).read()
+        if s.count(old) < 1:
+            return 'post-edit does not apply: %s: %r' % (path, old[:60])
+        open(p, 'w').write(s.replace(old, new, 1))
     return None
 
 
